@@ -273,9 +273,13 @@ def regen_and_make(targets: list[str], timeout: int = 3000, gen_deps=()) -> tupl
         log = []
         changed, failures = py2coq.generate_all(REPO, COQ / "Gen", only=set(gen_deps))
         log.append(f"py2coq: regenerated, changed={changed}")
+        # generate_all reports per module (wave 8): a refusal, a plug-in that cannot be imported, a GEN_DEPS name that no spec
+        # defines (e.g. because its spec file does not load) are all failures of that module
         mine = {k: v for k, v in failures.items() if k in gen_deps}
         if mine:  # fail closed: translator refused the current source of a function this property's model uses
             return False, f"py2coq refused the current source: {mine}"
+        if failures:  # spec files of OTHER properties that do not load: not this property's obligation, but visible in its log
+            log.append(f"py2coq: failures outside this property's GEN_DEPS: {failures}")
         mk = subprocess.run([PY, str(VERIF / "tools" / "mkproject.py")], capture_output=True, text=True)
         if mk.returncode != 0:
             return False, "mkproject failed: " + mk.stdout + mk.stderr
